@@ -460,6 +460,7 @@ func GenDoc(rng *RNG) []byte {
 
 // adversarial fragments for the safety properties
 var advPieces = []string{
+	"![<http://x/\"onerror=\"alert(1)>](y.png)", "![a <http://x/?a&b=\"c\"> b](y)", "![<x@y.z>](y)", "![`\"><b>`](y)", "![**\"&<>**](y)", "![[l](\"u\")](y)", "![a\\\nb <b>raw</b> &amp; &#34;](y \"t\")",
 	"# h {a<b=c}", "# h {a/b=1}", "# h {data-a<b=1}", "# h {data-a/b=1}", "# h {data-a\"b=1}", "# h {x\"y=1}", "# h {data-<i>=1}", "# h {a>=1}", "# h {a&b=1}", "# h {9a=1}", "# h {-a=1}", "# h {id=a id=b}", "# h {#a #b}", "# h {title=x title=y}",
 	"<script>alert(1)</script>", "<img src=x onerror=alert(1)>", "\"><script>", "' onmouseover='x", "<a href=\"javascript:x\">", "<!-- --><b>", "--><x>", "<![CDATA[", "]]>",
 	"[a](\"><b>)", "[a](/u \"t\\\"><b>\")", "![\"><b>](u)", "![a](u '\"<')", "<http://a.b/\"><b>>", "<x@y.z\"<>", "`<b>`", "```\"><b>\n<b>\n```", "# h {#\"><b>}", "# h {a=\"\\\"><b>\"}", "# h {onclick=x}",
@@ -565,4 +566,56 @@ func pooledMarkdown(c Cfg) goldmark.Markdown {
 func releaseMarkdown(c Cfg, m goldmark.Markdown) {
 	p, _ := mdPools.LoadOrStore(c.Name(), &sync.Pool{})
 	p.(*sync.Pool).Put(m)
+}
+
+// globalAttrNames: the names html.GlobalAttributeFilter allows (data only; used to derive NEAR MISSES of allowed names)
+var globalAttrNames = strings.Split("accesskey,autocapitalize,autofocus,class,contenteditable,dir,draggable,enterkeyhint,hidden,id,inert,inputmode,is,itemid,itemprop,itemref,itemscope,itemtype,lang,part,role,slot,spellcheck,style,tabindex,title,translate", ",")
+
+// NearMissAttrNames: names that are NOT allowed but agree with allowed names position by position in their first
+// three bytes and in length/suffix (what a prefix-table-only or suffix-only comparison would let through), plus
+// one-off edits of allowed names.
+func NearMissAttrNames() []string {
+	allowed := map[string]bool{}
+	for _, n := range globalAttrNames {
+		allowed[n] = true
+	}
+	seen := map[string]bool{}
+	var out []string
+	add := func(n string) {
+		if n == "" || allowed[n] || seen[n] || strings.HasPrefix(n, "data-") {
+			return
+		}
+		c := n[0]
+		if !(c >= 'a' && c <= 'z') {
+			return
+		}
+		seen[n] = true
+		out = append(out, n)
+	}
+	for _, a := range globalAttrNames {
+		for _, b := range globalAttrNames {
+			for _, c := range globalAttrNames {
+				// first byte from a, second from b, third from c, rest (and length) from a / b / c
+				for _, base := range []string{a, b, c} {
+					if len(base) < 2 {
+						continue
+					}
+					m := []byte(base)
+					m[0] = a[0]
+					if len(b) > 1 {
+						m[1] = b[1]
+					}
+					if len(m) > 2 && len(c) > 2 {
+						m[2] = c[2]
+					}
+					add(string(m))
+				}
+			}
+		}
+		add(a + "x")
+		add(a[:len(a)-1])
+		add("x" + a)
+	}
+	sort.Strings(out)
+	return out
 }
